@@ -101,6 +101,18 @@ fn band_norms(points: &[&[f64]], lift: bool) -> (f64, f64) {
     (log2_f(max_row), log_h)
 }
 
+thread_local! {
+    /// safety factor on the absolute part of the dead band (default 1e6, see `decidable`)
+    static ABS_BAND_SAFETY: std::cell::Cell<f64> = const { std::cell::Cell::new(1e6) };
+}
+
+/// Install the safety factor on the absolute dead band for this thread (one run = one thread).
+/// The `small` input family (well-conditioned dyadic points in a 4e-3 box, no near-duplicates)
+/// uses 10: there the library's dead band is the only thing between a determinant and its sign.
+pub fn set_abs_band_safety(f: f64) {
+    ABS_BAND_SAFETY.with(|c| c.set(f));
+}
+
 /// Decide whether an exact determinant (integer `d` at scale 2^(min_e*deg)) is outside the band.
 fn decidable(d: &Big, min_e: i32, deg: i32, norms: (f64, f64)) -> bool {
     let (log_a0, log_h0) = norms;
@@ -118,7 +130,7 @@ fn decidable(d: &Big, min_e: i32, deg: i32, norms: (f64, f64)) -> bool {
     // ill-conditioned near-duplicate clusters, where the library's other in-sphere formulations
     // lose more than the LU bound, out of the judged set)
     let a_inf = if log_a.is_finite() { log_a.exp2() } else { 0.0 };
-    let abs_band = log2_f(1e-6 * (1.0 + a_inf));
+    let abs_band = log2_f(1e-12 * ABS_BAND_SAFETY.with(std::cell::Cell::get) * (1.0 + a_inf));
     // relative rounding scale: an a-priori LU bound is ~ n * growth * eps * Hadamard
     // (<= 7 * 64 * 1.1e-16 = 5e-14 for the largest matrix); 1e-12 leaves a factor 20 on top of
     // that worst case. (Until round 1 this was 1e-9, which made the oracle abstain from
